@@ -170,8 +170,10 @@ func (b *circuitBreakerBase) resetCurProbeNum() {
 // fromClosedToOpen updates circuit breaker state machine from closed to open.
 // Return true only if current goroutine successfully accomplished the transformation.
 func (b *circuitBreakerBase) fromClosedToOpen(snapshot interface{}) bool {
+	// Arm the retry deadline before Open becomes visible: a concurrent TryPass that observes
+	// Open must not compare against the previous (expired or zero) deadline.
+	b.updateNextRetryTimestamp()
 	if b.state.cas(Closed, Open) {
-		b.updateNextRetryTimestamp()
 		for _, listener := range stateChangeListeners {
 			listener.OnTransformToOpen(Closed, *b.rule, snapshot)
 		}
@@ -216,9 +218,10 @@ func (b *circuitBreakerBase) fromOpenToHalfOpen(ctx *base.EntryContext) bool {
 // fromHalfOpenToOpen updates circuit breaker state machine from half-open to open.
 // Return true only if current goroutine successfully accomplished the transformation.
 func (b *circuitBreakerBase) fromHalfOpenToOpen(snapshot interface{}) bool {
+	// Arm the retry deadline before Open becomes visible (see fromClosedToOpen).
+	b.updateNextRetryTimestamp()
 	if b.state.cas(HalfOpen, Open) {
 		b.resetCurProbeNum()
-		b.updateNextRetryTimestamp()
 		for _, listener := range stateChangeListeners {
 			listener.OnTransformToOpen(HalfOpen, *b.rule, snapshot)
 		}
